@@ -26,6 +26,7 @@ import (
 	"time"
 
 	mdag "github.com/ipfs/boxo/ipld/merkledag"
+	mdtest "github.com/ipfs/boxo/ipld/merkledag/test"
 	uio "github.com/ipfs/boxo/ipld/unixfs/io"
 	"github.com/ipfs/go-cid"
 	ipld "github.com/ipfs/go-ipld-format"
@@ -42,19 +43,19 @@ type fakeNode struct {
 	size uint64
 }
 
-func (f *fakeNode) RawData() []byte                              { return nil }
-func (f *fakeNode) Cid() cid.Cid                                 { return f.c }
-func (f *fakeNode) String() string                               { return "fake" }
-func (f *fakeNode) Loggable() map[string]any                     { return nil }
-func (f *fakeNode) Resolve([]string) (any, []string, error)      { return nil, nil, errors.New("no") }
-func (f *fakeNode) Tree(string, int) []string                    { return nil }
+func (f *fakeNode) RawData() []byte                         { return nil }
+func (f *fakeNode) Cid() cid.Cid                            { return f.c }
+func (f *fakeNode) String() string                          { return "fake" }
+func (f *fakeNode) Loggable() map[string]any                { return nil }
+func (f *fakeNode) Resolve([]string) (any, []string, error) { return nil, nil, errors.New("no") }
+func (f *fakeNode) Tree(string, int) []string               { return nil }
 func (f *fakeNode) ResolveLink([]string) (*ipld.Link, []string, error) {
 	return nil, nil, errors.New("no")
 }
-func (f *fakeNode) Copy() ipld.Node                 { return f }
-func (f *fakeNode) Links() []*ipld.Link             { return nil }
-func (f *fakeNode) Stat() (*ipld.NodeStat, error)   { return &ipld.NodeStat{}, nil }
-func (f *fakeNode) Size() (uint64, error)           { return f.size, nil }
+func (f *fakeNode) Copy() ipld.Node               { return f }
+func (f *fakeNode) Links() []*ipld.Link           { return nil }
+func (f *fakeNode) Stat() (*ipld.NodeStat, error) { return &ipld.NodeStat{}, nil }
+func (f *fakeNode) Size() (uint64, error)         { return f.size, nil }
 
 // ---------- compact Coq rendering of byte strings ----------
 // seg renders a byte string as literal bytes ++ (rp n b) runs so that long
@@ -157,6 +158,20 @@ func genCid(r *rand.Rand) cid.Cid {
 	default: // long identity digest: CID length crosses the 127/128 varint boundary
 		m, _ := mh.Encode(genDigest(r, 120+r.Intn(12)), mh.IDENTITY)
 		return cid.NewCidV1(cid.Raw, m)
+	}
+}
+
+// genCidSafe: CIDs whose hash passes boxo's allowlist (the HAMT a dynamic
+// directory converts to hands links to a block service that validates them).
+func genCidSafe(r *rand.Rand) cid.Cid {
+	for {
+		c := genCid(r)
+		p := c.Prefix()
+		switch {
+		case p.MhType == mh.SHA2_256 && p.MhLength == 32, p.MhType == mh.SHA2_512 && p.MhLength == 64,
+			p.MhType == mh.IDENTITY && p.MhLength <= 128:
+			return c
+		}
 	}
 }
 
@@ -361,6 +376,190 @@ func (h *hist) random(r *rand.Rand, st *vh.Stats, n int, reloads bool) {
 	}
 }
 
+// ---------- dynamic directories: the Basic -> HAMT decision ----------
+// A DynamicDirectory in block mode is driven next to a shadow BasicDirectory that
+// performs the same edits and never converts: len(shadow.RawData()) after an edit
+// is the exact size of the block the basic directory would serialise, i.e. what
+// the documented rule compares with the threshold.
+type dynOp struct {
+	thr    int
+	add    bool
+	e      entry
+	rmName string
+}
+
+func (o dynOp) coq() string {
+	if o.add {
+		return vh.Pair(vh.Z(int64(o.thr)), vh.App("OAdd", o.e.coq()))
+	}
+	return vh.Pair(vh.Z(int64(o.thr)), vh.App("ORemove", seg([]byte(o.rmName))))
+}
+
+func basicObs(d *uio.BasicDirectory, ok bool) (string, int) {
+	nd, _ := d.GetNode()
+	raw := nd.RawData()
+	return fmt.Sprintf("(%s, %s, %s, %s, %s)",
+		vh.Z(int64(uio.VerifEstimatedSize(d))), vh.Z(int64(uio.VerifTotalLinks(d))),
+		vh.Z(int64(len(raw))), vh.ZU(uint64(adler32.Checksum(raw))), vh.Bool(ok)), len(raw)
+}
+
+// shadowSizes runs the edits on a pure basic directory and returns the block
+// length after creation and after every edit.
+func shadowSizes(mode os.FileMode, mtime time.Time, ops []dynOp) []int {
+	sh, err := uio.NewBasicDirectory(nil, uio.WithStat(mode, mtime), uio.WithSizeEstimationMode(uio.SizeEstimationBlock))
+	if err != nil {
+		panic(err)
+	}
+	_, n := basicObs(sh, true)
+	out := []int{n}
+	for _, o := range ops {
+		if o.add {
+			sh.AddChild(context.Background(), o.e.name, &fakeNode{c: o.e.c, size: o.e.tsize})
+		} else {
+			sh.RemoveChild(context.Background(), o.rmName)
+		}
+		_, n = basicObs(sh, true)
+		out = append(out, n)
+	}
+	return out
+}
+
+// runDyn drives the real DynamicDirectory and emits one CDyn case.
+func runDyn(cs *vh.Cases, st *vh.Stats, kind string, mode os.FileMode, mtime time.Time, ops []dynOp) {
+	ctx := context.Background()
+	dir, err := uio.NewDirectory(mdtest.Mock(), uio.WithStat(mode, mtime), uio.WithSizeEstimationMode(uio.SizeEstimationBlock))
+	if err != nil {
+		panic(err)
+	}
+	dd := dir.(*uio.DynamicDirectory)
+	shadow, err := uio.NewBasicDirectory(nil, uio.WithStat(mode, mtime), uio.WithSizeEstimationMode(uio.SizeEstimationBlock))
+	if err != nil {
+		panic(err)
+	}
+	first, _ := basicObs(dd.Directory.(*uio.BasicDirectory), true)
+	var done, trace []string
+	sharded := false
+	for _, o := range ops {
+		dd.SetHAMTShardingSize(o.thr)
+		var e1, e2 error
+		if o.add {
+			e1 = shadow.AddChild(ctx, o.e.name, &fakeNode{c: o.e.c, size: o.e.tsize})
+			e2 = dd.AddChild(ctx, o.e.name, &fakeNode{c: o.e.c, size: o.e.tsize})
+		} else {
+			e1 = shadow.RemoveChild(ctx, o.rmName)
+			e2 = dd.RemoveChild(ctx, o.rmName)
+		}
+		_, w := basicObs(shadow, true)
+		done = append(done, o.coq())
+		if bd, ok := dd.Directory.(*uio.BasicDirectory); ok {
+			if (e1 == nil) != (e2 == nil) {
+				panic(fmt.Sprintf("shadow and dynamic directory disagree on the error: %v / %v", e1, e2))
+			}
+			ob, _ := basicObs(bd, e2 == nil)
+			trace = append(trace, fmt.Sprintf("(false, %d, %s)", w, ob))
+			if w > o.thr && o.thr > 0 {
+				st.Count("dyn:basic above threshold")
+			}
+		} else {
+			if e2 != nil {
+				panic(e2)
+			}
+			trace = append(trace, fmt.Sprintf("(true, %d, no_obs)", w))
+			sharded = true
+			if w-o.thr <= 2 {
+				st.Count("dyn:sharded within 2 bytes of the threshold")
+			}
+			break
+		}
+		if d := o.thr - w; d >= 0 && d <= 2 {
+			st.Count("dyn:stayed basic within 2 bytes of the threshold")
+		}
+	}
+	term := vh.App("CDyn", vh.ZU(uint64(uint32(mode))), timeCoq(mtime), vh.List(done), first, vh.List(trace))
+	rp := replay{Kind: kind, Mode: uint32(mode), Mtime: timeCoq(mtime), Ops: done}
+	cs.Add(term, rp)
+	st.Case(fmt.Sprintf("dyn|%d|%s|%s", uint32(mode), timeCoq(mtime), strings.Join(done, ";")), len(done) > 0)
+	st.Count("kind:" + kind)
+	if sharded {
+		st.Count("dyn:ended sharded")
+	} else {
+		st.Count("dyn:ended basic")
+	}
+}
+
+// tsize representatives of every varint length class (1..9 bytes) and their edges
+var tsizeClass = []uint64{0, 127, 128, 16383, 16384, 2097151, 2097152, 268435455, 268435456,
+	1<<35 - 1, 1 << 35, 1<<42 - 1, 1 << 42, 1<<49 - 1, 1 << 49, 1<<56 - 1, 1 << 56, 1<<63 - 1}
+
+// replaceAcrossClasses: a few entries, then the entry `name` (Tsize a) is replaced
+// by a target with Tsize b under a threshold placed at the resulting block size + delta.
+func replaceAcrossClasses(r *rand.Rand, cs *vh.Cases, st *vh.Stats, a, b uint64, delta int, mode os.FileMode, mtime time.Time) {
+	nOthers := 1 + r.Intn(3)
+	var ops []dynOp
+	target := genName(r, false) + "t"
+	pos := r.Intn(nOthers + 1)
+	for i := 0; i <= nOthers; i++ {
+		if i == pos {
+			ops = append(ops, dynOp{add: true, e: entry{target, genCidSafe(r), a}})
+		} else {
+			ops = append(ops, dynOp{add: true, e: entry{fmt.Sprintf("o%d", i) + genName(r, false), genCidSafe(r), genTsize(r) &^ (1 << 63)}})
+		}
+	}
+	newCid := genCidSafe(r)
+	if r.Intn(2) == 0 {
+		newCid = ops[pos].e.c // same CID, only the size class changes
+	}
+	ops = append(ops, dynOp{add: true, e: entry{target, newCid, b}})
+	sizes := shadowSizes(mode, mtime, ops)
+	final := sizes[len(sizes)-1]
+	setup := 0
+	for _, s := range sizes[:len(sizes)-1] {
+		setup = max(setup, s)
+	}
+	for i := range ops {
+		ops[i].thr = setup + 3 // generous while the directory is being filled
+	}
+	ops[len(ops)-1].thr = max(final+delta, 1)
+	runDyn(cs, st, "dyn-replace", mode, mtime, ops)
+}
+
+func randomDyn(r *rand.Rand, cs *vh.Cases, st *vh.Stats) {
+	mode, mtime := genMode(r), genTime(r)
+	n := 2 + r.Intn(9)
+	var ops []dynOp
+	var names []string
+	for i := 0; i < n; i++ {
+		k := r.Intn(10)
+		switch {
+		case k < 5 || len(names) == 0:
+			e := entry{genName(r, false), genCidSafe(r), genTsize(r) &^ (1 << 63)}
+			names = append(names, e.name)
+			ops = append(ops, dynOp{add: true, e: e})
+		case k < 8:
+			ts := tsizeClass[r.Intn(len(tsizeClass))]
+			ops = append(ops, dynOp{add: true, e: entry{names[r.Intn(len(names))], genCidSafe(r), ts}})
+		default:
+			ops = append(ops, dynOp{rmName: names[r.Intn(len(names))]})
+		}
+	}
+	sizes := shadowSizes(mode, mtime, ops)
+	// threshold near the size after a chosen edit; earlier edits run under a
+	// threshold near their own results too (one in three) or a generous one
+	k := 1 + r.Intn(n)
+	for i := range ops {
+		switch {
+		case i+1 == k || r.Intn(3) == 0:
+			ops[i].thr = max(sizes[i+1]+r.Intn(5)-2, 1)
+		default:
+			ops[i].thr = sizes[i+1] + 3 + r.Intn(40)
+		}
+		if r.Intn(60) == 0 {
+			ops[i].thr = 0 // per-directory threshold unset: the 256 KiB default applies
+		}
+	}
+	runDyn(cs, st, "dyn-history", mode, mtime, ops)
+}
+
 func TestC17(t *testing.T) {
 	env := vh.Load(t)
 	r := env.Rng
@@ -471,6 +670,55 @@ func TestC17(t *testing.T) {
 		h.random(r, st, n, i%3 != 0)
 		h.emit(cs, st, "history")
 		st.Count(fmt.Sprintf("len:%02d", min(len(h.ops)/3*3, 30)))
+	}
+
+	// ---- dynamic directories: thresholds at the exact resulting block size -2..+2 ----
+	{ // corpus: three small entries, the first replaced by a target one varint class up, threshold = old size
+		c0, _ := cid.Decode("QmUNLLsPACCz1vLxQVkXqqLX5R1X345qqfHbsf67hvA3Nn")
+		mk := func(first uint64, last uint64, lastThr func(allSmall, withBig int) int) {
+			ops := []dynOp{{add: true, e: entry{"a", c0, first}}, {add: true, e: entry{"b", c0, 4}}, {add: true, e: entry{"c", c0, 4}},
+				{add: true, e: entry{"a", c0, last}}}
+			sz := shadowSizes(0, time.Time{}, ops)
+			small, big := min(sz[3], sz[4]), max(sz[3], sz[4])
+			for i := range ops {
+				ops[i].thr = big
+			}
+			ops[3].thr = lastThr(small, big)
+			runDyn(cs, st, "corpus-dyn", 0, time.Time{}, ops)
+		}
+		mk(4, 311, func(s, b int) int { return s })     // grows over the threshold: must shard
+		mk(311, 4, func(s, b int) int { return s })     // shrinks onto the threshold: must stay basic
+		mk(4, 311, func(s, b int) int { return b })     // grows onto the threshold: must stay basic
+		mk(311, 4, func(s, b int) int { return s - 1 }) // shrinks to one above: must shard
+	}
+	for i := 0; i+1 < len(tsizeClass); i++ {
+		for _, dir := range []int{0, 1} {
+			a, b := tsizeClass[i], tsizeClass[i+1]
+			if dir == 1 {
+				a, b = b, a
+			}
+			for delta := -2; delta <= 2; delta++ {
+				if !env.Thorough() && !search && (i+dir+delta+int(env.Seed%2)+4)%2 != 0 {
+					continue
+				}
+				replaceAcrossClasses(r, cs, st, a, b, delta, genMode(r), genTime(r))
+			}
+		}
+	}
+	nfar := env.Pick(60, 1500)
+	if search {
+		nfar = 300
+	}
+	for i := 0; i < nfar; i++ { // far apart classes: the error of a wrong old-entry size is up to 9 bytes
+		a, b := tsizeClass[r.Intn(len(tsizeClass))], tsizeClass[r.Intn(len(tsizeClass))]
+		replaceAcrossClasses(r, cs, st, a, b, r.Intn(21)-10, genMode(r), genTime(r))
+	}
+	ndyn := env.Pick(250, 4000)
+	if search {
+		ndyn = 1000
+	}
+	for i := 0; i < ndyn; i++ {
+		randomDyn(r, cs, st)
 	}
 
 	cs.Close()
